@@ -503,8 +503,10 @@ class Tabular(Stream):
             s2 = Score.from_sequence(sc.to_sequence())
             a = sg.merge_rows(sg.impl_rows(sc))
             b = sg.merge_rows(sg.impl_rows(s2))
+            hdr = lambda x: [[int(c.element), str(c.extension), int(c.tonality.degree), c.tonality.mode, int(c.tonality.octave), int(c.octave)] for c in x.chords]
             return {"a": sorted(map(repr, a.values())), "b": sorted(map(repr, b.values())), "dur": [F(sc.duration), F(s2.duration)],
-                    "parts": [[list(c.score.keys()) for c in sc.chords], [list(c.score.keys()) for c in s2.chords]]}
+                    "parts": [[list(c.score.keys()) for c in sc.chords], [list(c.score.keys()) for c in s2.chords]],
+                    "chords": [hdr(sc), hdr(s2)], "eq": bool(s2 == sc)}
         return mlang.guarded(f)
 
     def spec(self, case, r):
@@ -512,6 +514,8 @@ class Tabular(Stream):
             return {"sig": "tabular-raises", "msg": str(r)}
         if [x for x in r["a"] if x != "[]"] != [x for x in r["b"] if x != "[]"]:
             return {"sig": "tabular-roundtrip-sound", "msg": f"{r['a'][:2]} vs {r['b'][:2]}"}
+        if r["chords"][0] != r["chords"][1]:
+            return {"sig": "tabular-roundtrip-chords", "msg": f"(degree, extension, tonality degree / mode / octave, chord octave): {r['chords'][0][:3]} came back as {r['chords'][1][:3]}"}
         if r["parts"][0] != r["parts"][1]:
             return {"sig": "tabular-roundtrip-part-order", "msg": f"{r['parts'][0][:2]} came back as {r['parts'][1][:2]}"}
         return None
